@@ -32,6 +32,6 @@ for e in kf["findings"]:
     results[e["id"]] = {"property": pid, "commit": commit, "suite_with_revert": ot.strip()[-60:], "check_exit": rcc, "violations": viol[:3], "detected": rcc == 1 and bool(viol),
                         "with_failing_input": bool(viol) and "no-failing-input-found" not in viol[0]}
     print(e["id"], "detected" if results[e["id"]]["detected"] else "MISSED", viol[:1])
-    sh("rm -rf /var/tmp/verif_alt_*")
+    sh("rm -rf /var/tmp/verif_alt_" + __import__('hashlib').sha1(__import__('os').path.realpath(WT).encode()).hexdigest()[:10] + "")
     json.dump(results, open(resfile, "w"), indent=1)
 sh(f"git -C {WT} revert --abort; git -C /repo worktree remove --force {WT}")
